@@ -212,7 +212,11 @@ func printResult(res *Result) {
 
 func loadKnown() map[string]KnownEntry {
 	out := map[string]KnownEntry{}
-	data, err := os.ReadFile(filepath.Join(verifDir, "known_findings.jsonl"))
+	kf := filepath.Join(verifDir, "known_findings.jsonl")
+	if v := os.Getenv("VERIF_KNOWN_FILE"); v != "" {
+		kf = v // development: run a check against another (e.g. empty) known-findings file
+	}
+	data, err := os.ReadFile(kf)
 	if err != nil {
 		return out
 	}
